@@ -60,7 +60,7 @@ def strategy(tier):
 
     extra = st.fixed_dictionaries({"probes": gen.pool_st(1, 4), "suffix": st.lists(st.tuples(st.integers(0, 15), st.integers(1, 4), st.booleans()),
                                                                                   max_size=4).map(lambda l: [list(x) for x in l]),
-                                   "qt": st.sampled_from(["min", "mean", "mean-min"]), "er": st.sampled_from([None, None, 0.01, 0.0001, 0.3, 0.00001])})
+                                   "qt": st.sampled_from(["min", "mean", "mean-min"]), "er": st.sampled_from([None, None, None, 0.01, 0.0001, 0.3, 0.00001, 0.00001, 1e-10, 3e-11])})
     base = st.one_of(
         bloom.case_strategy(tier, max_ops=25).map(tag("bloom")),
         bloom.case_strategy(tier, max_ops=25).map(tag("bloom")),
@@ -346,6 +346,15 @@ def _cuckoo(case, ctx, d):
             ctx.feat("cuckoo_error_rate_style")
         else:
             er, bits = None, None
+    if bits is not None and bits > 32:
+        # fingerprints wider than the 4 bytes the format has per entry: the export refuses such a table (OverflowError) as soon as
+        # one stored fingerprint does not fit - "cannot be exported", outside the claim; if it DOES export, the round trip must hold
+        try:
+            bytes(o)
+            ctx.feat("cuckoo_wide_fingerprints_exported")
+        except OverflowError:
+            ctx.feat("cuckoo_wide_fingerprints_export_refused")
+            return K.__name__
     ad = Ad(ctx, o)
     raw = ad.channels(o)
     probes = d.pool + [dk(k) for k in case["probes"]]
